@@ -49,7 +49,7 @@ func profileFor(prop string) (Profile, []Monitor) {
 	return Profile{}, nil
 }
 
-func probesOnlyAtClose(prop string) bool { return prop == "C06" }
+func probesOnlyAtClose(prop string) bool { return false }
 
 // closeOnlyProbes wraps a chooser so that probes are only drawn once the hand is
 // closed (C06: "from then on accepts nothing"; wrong-phase probes during the
@@ -262,6 +262,12 @@ func TestReplay(t *testing.T) {
 		var c startCase
 		json.Unmarshal(r.Case, &c)
 		v = checkStart(&c)
+	case "two":
+		var c twoCase
+		json.Unmarshal(r.Case, &c)
+		for i := 0; i < 5 && v == nil; i++ { // the shuffle at Start() is time-seeded
+			v = replayTwo(&c)
+		}
 	case "shuffle":
 		var c shuffleCase
 		json.Unmarshal(r.Case, &c)
